@@ -57,7 +57,7 @@ def generate(seed, tier):
             # another state of the same class comes to life (other sizes): the first must not notice
             ops.append({"op": "construct_other", "nv": r.randint(1, 3), "nh": r.randint(1, 4), "route": r.choice(["sizes", "module"]), "sub": P.s64(r)})
         else:
-            ops.append({"op": "fit_without_bases", "sub": P.s64(r)})
+            ops.append({"op": "fit_without_bases", "sub": P.s64(r), "stop_pending": r.random() < 0.4})
     ops.append({"op": "contract"})
     return {"property": PROP, "run_seed": seed, "sub": P.s64(r), "config": cfg, "ops": ops}
 
@@ -264,18 +264,22 @@ def execute(plan):
                     continue
                 before = params_snapshot(state)
                 rng.stream(op["sub"])
+                if op.get("stop_pending"):
+                    # a stop request left over from an earlier run is still pending on the state
+                    state.stop_training = True
                 dcfg = {"N": 3, "nv": c["nv"], "dseed": op["sub"], "form": "tensor"}
                 din, _, _ = build_data(dcfg, with_bases=False)
                 tc = {"epochs": 1, "starting_epoch": 1, "pos_bs": 2, "neg_bs": None, "k": 1, "lr": 0.1}
                 info = run_fit(run, state, tc, din, None, n_wit=1)
                 items, _ = protocol.extract(run, 1)
                 if not isinstance(info["raised"], ValueError):
-                    run.violate("20-nobases", f"training a {c['type']} state without bases was not refused with ValueError (got {type(info['raised']).__name__})", type=c["type"])
+                    run.violate("20-nobases", f"training a {c['type']} state without bases was not refused with ValueError (got {type(info['raised']).__name__}; stop pending: {bool(op.get('stop_pending'))})", type=c["type"], stop_pending=bool(op.get("stop_pending")))
                 if info["preempt"].event_idx >= 0:
                     run.violate("20-nobases", "training without bases emitted protocol events before being refused", type=c["type"])
                 if not snapshots_equal(before, params_snapshot(state)):
                     run.violate("20-nobases", "training without bases changed parameters", type=c["type"])
-                trace.append("N")
+                state.stop_training = False
+                trace.append(("N", bool(op.get("stop_pending"))))
             elif kind == "train":
                 did_history = True
                 phase_is_copy["v"] = False
